@@ -4,3 +4,4 @@ import Obl.Proto
 import Obl.Sub
 import Obl.Ids
 import Obl.Macat
+import Obl.Opt
